@@ -130,7 +130,9 @@ def _compositions(k):
     return [(first,) + rest for first in range(1, k + 1) for rest in _compositions(k - first)]
 
 
-COMPS = _compositions(K)                                              # record sizes, e.g. (2, 1): $THETA a b / $THETA c
+COMPS = _compositions(K)                                               # record sizes, e.g. (2, 1): $THETA a b / $THETA c
+C_LO = int(os.environ.get('VH_CLO', '0'))           # optional case split on the record layout of the thetas
+C_HI = int(os.environ.get('VH_CHI', str(len(COMPS))))
 ACTS = list(itertools.product((0, 1, 2), repeat=K))                   # per old entry: 0 keep, 1 change value, 2 remove
 INS = [g for r in range(MAXINS + 1) for g in itertools.combinations_with_replacement(range(K + 1), r)]   # gaps
 
@@ -171,20 +173,20 @@ def _body_thetas(c, a, g):
 
 def thetas_ok(c: int, a: int, g: int) -> bool:
     """
-    pre: 0 <= c < len(COMPS) and 0 <= a < len(ACTS) and 0 <= g < len(INS)
+    pre: C_LO <= c < min(C_HI, len(COMPS)) and 0 <= a < len(ACTS) and 0 <= g < len(INS)
     post: _ == True
     """
-    codes = [_pick(c, 0, len(COMPS)), _pick(a, 0, len(ACTS)), _pick(g, 0, len(INS))]
+    codes = [_pick(c, C_LO, min(C_HI, len(COMPS))), _pick(a, 0, len(ACTS)), _pick(g, 0, len(INS))]
     with _NoTracing():
         return _body_thetas(*codes)
 
 
 def thetas_ok__twin(c: int, a: int, g: int) -> bool:
     """
-    pre: 0 <= c < len(COMPS) and 0 <= a < len(ACTS) and 0 <= g < len(INS)
+    pre: C_LO <= c < min(C_HI, len(COMPS)) and 0 <= a < len(ACTS) and 0 <= g < len(INS)
     post: _ == True
     """
-    codes = [_pick(c, 0, len(COMPS)), _pick(a, 0, len(ACTS)), _pick(g, 0, len(INS))]
+    codes = [_pick(c, C_LO, min(C_HI, len(COMPS))), _pick(a, 0, len(ACTS)), _pick(g, 0, len(INS))]
     with _NoTracing():
         return _body_thetas(*codes) is not True
 
@@ -278,6 +280,8 @@ def _layouts(k):
 
 
 LAYOUTS = _layouts(K)
+L_LO = int(os.environ.get('VH_LLO', '0'))           # optional case split on the layout index
+L_HI = int(os.environ.get('VH_LHI', str(len(LAYOUTS))))
 OINS = [g for r in range(MAXINS + 1)
         for g in itertools.combinations_with_replacement([(i, b) for i in range(K + 1) for b in (1, 2)], r)]
 
@@ -398,19 +402,19 @@ def _body_omegas(lay, a, g):
 
 def omegas_ok(lay: int, a: int, g: int) -> bool:
     """
-    pre: 0 <= lay < len(LAYOUTS) and 0 <= a < len(ACTS) and 0 <= g < len(OINS)
+    pre: L_LO <= lay < min(L_HI, len(LAYOUTS)) and 0 <= a < len(ACTS) and 0 <= g < len(OINS)
     post: _ in (True, None)
     """
-    codes = [_pick(lay, 0, len(LAYOUTS)), _pick(a, 0, len(ACTS)), _pick(g, 0, len(OINS))]
+    codes = [_pick(lay, L_LO, min(L_HI, len(LAYOUTS))), _pick(a, 0, len(ACTS)), _pick(g, 0, len(OINS))]
     with _NoTracing():
         return _body_omegas(*codes)
 
 
 def omegas_ok__twin(lay: int, a: int, g: int) -> bool:
     """
-    pre: 0 <= lay < len(LAYOUTS) and 0 <= a < len(ACTS) and 0 <= g < len(OINS)
+    pre: L_LO <= lay < min(L_HI, len(LAYOUTS)) and 0 <= a < len(ACTS) and 0 <= g < len(OINS)
     post: _ == True
     """
-    codes = [_pick(lay, 0, len(LAYOUTS)), _pick(a, 0, len(ACTS)), _pick(g, 0, len(OINS))]
+    codes = [_pick(lay, L_LO, min(L_HI, len(LAYOUTS))), _pick(a, 0, len(ACTS)), _pick(g, 0, len(OINS))]
     with _NoTracing():
         return _body_omegas(*codes) is not True
